@@ -36,6 +36,7 @@ class FnContract:
     target: str                            # "rel/path.py::qualname"  or external dotted name
     params: list = field(default_factory=list)   # [(name, maker)] maker(ex, st, name) -> V
     requires: Optional[Callable] = None    # requires(ctx) -> Bool
+    hyps: Optional[Callable] = None        # proved lemmas assumed in the body: hyps(ctx) -> Bool
     ensures: list = field(default_factory=list)  # [(label, fn(ctx) -> Bool)]
     returns: Optional[Callable] = None     # functional result: returns(ctx) -> V   (result == this)
     final: dict = field(default_factory=dict)    # param name -> fn(ctx) -> list[V]: final content of a mutable list arg
